@@ -131,7 +131,16 @@ CHECKS["C10"] = dict(
     technique="CrossHair symbolic execution of bind_args vs inspect.Signature.bind (differential, call shapes symbolic)",
     engine="E-PY",
 )
-NA = {}
+CHECKS["C12"] = dict(
+    category="translation_validation",
+    text="Instantiation trees (depth <= 3, fan-out <= 3, repeated templates, nested instances, slice and typed-view actuals, instances created inside a concurrent context; combinational, registered, counter and coroutine leaves) are compiled twice -- hierarchically and with the same leaf functions inlined in the parent -- and z3 proves the two emitted designs (hierarchy flattened along the port maps by the front end) produce equal outputs: for all inputs (combinational trees) / for all input sequences of K=6 (quick) / 12 (thorough) clocks from power-up. The emitted interface (names, directions, types, order), one unit per template and sub-entities-before-users are read off the elaborated text.",
+    design_ref="DESIGN.md 3/C12",
+    note="Bounded for clocked trees (depth K). Trusted: front end's port-map flattening (aliases for plain names, implicit assignments otherwise), z3. The interface / ordering part is a deterministic reading of the text.",
+    technique="symbolic equivalence (z3) of two compiler outputs: hierarchical vs inlined design",
+)
+NA = {
+    "C11": "not applicable: the quantifier is over histories of whole-compiler runs and interpreter hash seeds; every point is one concrete whole-program compilation, there is no data domain to make symbolic and CrossHair cannot trace the compiler (probed, DESIGN.md section 3/C11 and 4); using a solver only to pick history indices would be enumeration of concrete runs under another name",
+}
 manifest = {
     "version": 1,
     "setup_cmd": "bin/ensure_env.sh",
